@@ -133,7 +133,7 @@ def check_cli_case(ctx, rng, index):
     for kind in ('spline', 'peatclsm'):
         rec.case()
         params = random_params(rng, kind)
-        if kind == 'spline' and rng.random() < 0.5:
+        if kind == 'spline' and rng.random() < 0.5 and max(v[0] for v in view) - min(v[0] for v in view) > 1.0:
             # knots around the observed levels so that the grid straddles them
             z = [v[0] for v in view]
             lo, hi = min(z), max(z)
